@@ -279,6 +279,8 @@ def write_replay(prop, case, fail):
 
 def run_check(modname, tier, seed, nproc=None, quiet=True):
     mod = importlib.import_module(modname)
+    from . import common as _common
+    _common.PATHFORMS_ENABLED = bool(getattr(mod, "PATHFORMS", True))      # (also for what runs in this process: parent_pass)
     prop = mod.PROPERTY
     t0 = time.time()
     known = load_known(prop)
